@@ -47,6 +47,27 @@ Proof.
   repeat split; assumption.
 Qed.
 
+(* cut_is_local: after any prefix d of a file, once a cut is allowed (chunk length incl. the next byte
+   >= MinSize, MinSize >= 64), the decision on the next byte b is "the last 64 bytes of the current
+   chunk hit, or the chunk has reached MaxSize": the window the chunker hashes IS those 64 bytes
+   (the initial slide(1) byte and the skipped pre bytes have left it) *)
+Theorem C17_cut_is_local : forall c, 64 <= mn c -> forall d b,
+  let s := fst (snd (spec_cuts c (reset_st c) [] d)) in
+  let acc := snd (snd (spec_cuts c (reset_st c) [] d)) in
+  mn c <= blen acc + 1 ->
+  fst (step1 c s b) = (hit c (lastn 64 (acc ++ [b])) || (mx c <=? blen acc + 1)).
+Proof. exact cut_is_local. Qed.
+
+Theorem C17_no_cut_before_min : forall c, 64 <= mn c -> forall d b,
+  let s := fst (snd (spec_cuts c (reset_st c) [] d)) in
+  let acc := snd (snd (spec_cuts c (reset_st c) [] d)) in
+  blen acc + 1 < mn c -> fst (step1 c s b) = false.
+Proof. exact no_cut_before_min. Qed.
+
+Theorem C17_window_at_decision : forall c, 64 <= mn c -> forall s acc b,
+  winv c s acc -> mn c <= cnt s + 1 -> pre s = 0 /\ push (win s) b = lastn 64 (acc ++ [b]).
+Proof. exact window_at_decision. Qed.
+
 (* oracle of the byte-level cases: code 0 iff observed chunks = reference chunking (+ the two
    implied clauses, which the oracle reports separately) *)
 Theorem C17_oracle_small : forall c f, small_code c f = 0%nat <->
@@ -75,6 +96,9 @@ Print Assumptions C17_lossless.
 Print Assumptions C17_bounds.
 Print Assumptions C17_prefix_stable.
 Print Assumptions C17_resync.
+Print Assumptions C17_cut_is_local.
+Print Assumptions C17_no_cut_before_min.
+Print Assumptions C17_window_at_decision.
 Print Assumptions C17_oracle_small.
 Print Assumptions C17_oracle_small_config.
 Print Assumptions C17_hit_in_meaning.
